@@ -106,7 +106,9 @@ PROPS = {
         "assumptions": ["thread ids below 2^31 (pid_t), image below 4 GiB"],
         "explanation": "C15 theorems over the Lean model of thread_names_stream::write: exact byte layout for every thread list (count ‖ one record per named "
                        "thread in order ‖ strings in order), record k points at the k-th name's string; counterexample theorem for the repaired indexing. "
-                       "The driver compares model and implementation byte for byte and decodes the implementation's stream against the named threads.",
+                       "The driver compares model and implementation byte for byte and decodes the implementation's stream against the named threads. "
+                       "C15_image_refines: the thread-names stage of the whole-image model (Model/Dump.lean) is what the operational writer model produces; "
+                       "C15_image_name: in the model's image of any content, record j carries the j-th named thread's id and the location of its name string.",
     },
     "C01": {
         "rule": "real dumps of generated live targets (vtarget: 1 … 64 threads blocked in a raw syscall with any mix of named / unnamed / non-ASCII names, "
@@ -114,7 +116,7 @@ PROPS = {
                 "(crash context with register values in / outside mappings, size limit, sanitize, skip-unreferenced, app memory, user mappings, "
                 "direct auxv) into destinations with pre-existing content; the Lean decoder collects every object of the real image and evaluates the "
                 "structural predicate. Distinct = distinct (#threads, #streams, option vector).",
-        "expected_tags": ["cfg.crash", "cfg.limit", "cfg.sanitize", "cfg.skip", "cfg.app", "cfg.umap", "cfg.auxv", "threads.gt20", "stream.3", "stream.24", "stream.12"],
+        "expected_tags": ["cfg.crash", "cfg.limit", "cfg.sanitize", "cfg.skip", "cfg.app", "cfg.umap", "cfg.auxv", "threads.gt20", "stream.3", "stream.24", "stream.12", "image.exact"],
         "extra_theorems": ["plan_entries_fit", "plan_types_distinct", "consts_agree"],
         "trusted_base": ["the writers fill array slots with indices below the array size (thread list, module list, memory list: `enumerate()` over the list "
                          "that sized the array; thread names: C15_layout; directory: plan_entries_fit)",
@@ -124,7 +126,11 @@ PROPS = {
                        "every returned location is the extent of the object just created; plan obligations re-proved against the regenerated source: "
                        "published entries ≤ directory size, stream types pairwise distinct. The decidable predicate wfImage (header, directory, unique "
                        "stream types, sizes implied by counts, every stored RVA resolves to an object inside the image, no overlap except the two "
-                       "intentional aliases) is evaluated on every real image.",
+                       "intentional aliases) is evaluated on every real image. "
+                       "Whole image: Model/Dump.lean is a closed-form model of generate_dump and its eighteen writers (header, directory, every stream body and "
+                       "referenced blob in append order, every stored offset computed from what precedes it); C01_image_header / _directory / _streams_disjoint / "
+                       "_thread_refs / _aliases prove, for every content record, what a reader finds in that image; the driver decodes every real image into such a "
+                       "record and demands that the model rebuilds the image byte for byte (every byte of a real dump is accounted for by the model).",
     },
     "C19": {
         "rule": "live: 2 … 5 dump requests on one configured writer against a blocked target, then one request on a freshly configured writer; every "
@@ -148,7 +154,9 @@ PROPS = {
         "assumptions": ["x86_64", "ds/es/ss are not part of a ucontext; CONTEXT.MxCsr (top level) is left 0 by the writer, float_save.mx_csr carries the value"],
         "explanation": "C05 theorems: every general-purpose, flag, segment and x87/SSE register of the supplied ucontext sits at its WinNT CONTEXT offset in the "
                        "serialised record; exception-record layout; fields chosen with / without a crash context (incl. the repaired case of an unlisted "
-                       "blamed thread).",
+                       "blamed thread). C05_image_listed / _unlisted: in the whole-image model (Model/Dump.lean) of any content the exception stream sits in "
+                       "directory slot 3, names the blamed thread, carries the supplied values, and its context location is the location stored in the blamed "
+                       "thread's thread-list record, where that context's bytes are (or the stand-alone copy of the supplied context).",
     },
     "C04": {
         "rule": "in-process: random user_regs / fpregs / debug registers through the real ThreadInfo::fill_cpu_context; live: targets whose threads load sentinel "
@@ -172,7 +180,10 @@ PROPS = {
         "assumptions": ["first or later dump of a writer alike (C19)", "an unreadable app region or IP window aborts the dump with Err (outside C07)",
                         "with sanitization the stack regions are intentionally altered (C12) and are not byte-compared"],
         "explanation": "C07 theorems: IP window inside the first mapping containing IP, containing IP, ≤ 128 bytes to either side, clipped exactly; memory-list layout "
-                       "(count + descriptors in registration order); registration completeness. Faithfulness of the bytes rests on C17.",
+                       "(count + descriptors in registration order); registration completeness. Faithfulness of the bytes rests on C17. "
+                       "C07_image_list / _thread_regions / _app_regions: in the whole-image model (Model/Dump.lean) of any content the memory list in directory slot 2 "
+                       "is the serialised list of registered blocks; every captured stack, instruction-pointer window and application region is such a block with "
+                       "the requested address and the length read, and the image holds its captured bytes at the block's location.",
     },
     "C14": {
         "rule": "BuildId::read_from_module / SoName::read_from_module (slice mode, each under catch_unwind) on: random byte strings of 0 … 200 bytes; "
